@@ -28,3 +28,33 @@ register(PropertySpec(
                  "== and != are symmetric on user values"],
     design_ref="DESIGN.md §2 C01",
 ))
+
+from . import negation
+
+register(PropertySpec(
+    id="C03",
+    title="negation returns the exact complement, at any nesting depth",
+    rules=[
+        Rule("NEG-TABLE", negation.rule_neg_table, 21,
+             "finite abstract evaluation of the Comparator._invert_ setter for each of the 7 operators: False->True gives "
+             "the complement operator; re-assigning the same flag changes nothing"),
+        Rule("NEG-INVOLUTION", negation.rule_neg_involution, 8,
+             "the leaf arm of Not toggles the flag (f(f(b))=b, f(False)=True) and the setter maps every complemented "
+             "operator back to the original on True->False"),
+        Rule("NEG-DEMORGAN", negation.rule_neg_demorgan, 4,
+             "Not(AND) builds an or-family node and Not(OR) an AND over Not(left), Not(right); Entity/SetOf are rebuilt "
+             "over Not(child) with the same selected variables; arm order does not shadow"),
+        Rule("NEG-TRUTH", negation.rule_neg_truth, 16,
+             "for every (invert, value truthiness, yield_when_false) the mapped-value and predicate-output sites set "
+             "_is_false_ = (truthy == invert) and emit iff yield_when_false or not _is_false_"),
+    ],
+    explanation="Negation is a rewrite at construction time, so it is a function on syntax and is decided from the "
+                "source: the inverse-operator table is extracted by abstract evaluation of the setter's CFG (match / if "
+                "chain / dict forms alike) over the finite operator alphabet and both flag transitions and compared "
+                "with the complement table; the De Morgan arms are checked by resolved constructor and operands; the "
+                "leaf transfer function is checked to be an involution; the two truth-inversion sites are checked "
+                "against their truth tables by abstract interpretation.",
+    assumptions=["operands of < <= > >= are totally ordered (the library's own inverse table assumes it)",
+                 "function objects are identified by definition site"],
+    design_ref="DESIGN.md §2 C03",
+))
